@@ -1,4 +1,4 @@
-(** C44 — project layer: name resolution vs the providers of modules (F16), rebuild with stale futures (F17),
+(** C44 — project layer: name resolution vs the providers of modules (F16), rebuild with stale futures (F16b),
     and the property statements instantiated for a project. *)
 From Coq Require Import List Bool String Ascii Arith PeanoNat Lia Permutation.
 From LV Require Import Base.Strings models.M_C44 proofs.P_C44.
@@ -177,13 +177,13 @@ Proof.
   - cbn. intros [H|[H|[]]]; discriminate.
 Qed.
 
-(** * F17: building the same Lib a second time in one process *)
-Definition f17_proj : project :=
+(** * F16b: building the same Lib a second time in one process *)
+Definition f16b_proj : project :=
   mkProj [mkFile "m_a" ["m_a"%string] [] []; mkFile "s_c" [] ["m_a"%string] []] [].
-Definition f17_roots : list node := ["m_a"%string; "s_c"%string].
-Definition f17_order : list node := ["m_a"%string; "s_c"%string].
-Definition f17_trace : list event := [ESubmit "m_a"; EStart "m_a"; EFinish "m_a"].
-Definition f17_state : state := mkState [] [] [] ["m_a"%string] f17_trace.
+Definition f16b_roots : list node := ["m_a"%string; "s_c"%string].
+Definition f16b_order : list node := ["m_a"%string; "s_c"%string].
+Definition f16b_trace : list event := [ESubmit "m_a"; EStart "m_a"; EFinish "m_a"].
+Definition f16b_state : state := mkState [] [] [] ["m_a"%string] f16b_trace.
 
 Lemma rebuild_refuted :
   exists p roots n order s o,
@@ -191,10 +191,10 @@ Lemma rebuild_refuted :
     run_of p (stale_after p roots) n order s /\ is_final s = true /\
     In o (serial_build (p_src p) order) /\ ~ In o (done s).
 Proof.
-  exists f17_proj, f17_roots, 3, f17_order, f17_state, "s_c"%string.
+  exists f16b_proj, f16b_roots, 3, f16b_order, f16b_state, "s_c"%string.
   split; [vm_compute; reflexivity|]. split; [vm_compute; reflexivity|]. split; [|split; [|split]].
-  - assert (E : accept (p_src f17_proj) (p_deps f17_proj) (stale_after f17_proj f17_roots) 3 f17_order f17_trace
-                = Some f17_state) by (vm_compute; reflexivity).
+  - assert (E : accept (p_src f16b_proj) (p_deps f16b_proj) (stale_after f16b_proj f16b_roots) 3 f16b_order f16b_trace
+                = Some f16b_state) by (vm_compute; reflexivity).
     now apply accept_sound_p in E.
   - reflexivity.
   - vm_compute. auto.
